@@ -279,12 +279,14 @@ def make_reduction_scalar(ghost, arr, term):
     return Sym(term)
 
 
-class PArr:
-    """Pointwise view of a numpy ndarray (see module docstring)."""
+class PArr(Kind):
+    """Pointwise view of a numpy ndarray (see module docstring).  (A `Kind`, so that the engine treats it as a symbolic value:
+    a repository helper that merely receives such an array is interpreted, never called natively.)"""
 
     _pyvc_value = True
 
     def __init__(self, elems, dt="f", data=None, name="arr", filtered=False):
+        Kind.__init__(self, "ndarray")
         self.elems = list(elems)
         self.dt = dt
         self.data = data
@@ -383,19 +385,21 @@ def _reduce_min_max(ctx, a, which, rest=(), kw=None):
     return a.data.scalar(a, a.data.gmin if which == "min" else a.data.gmax)
 
 
-class PMask:
+class PMask(Kind):
     _pyvc_value = True
 
     def __init__(self, src, what):
+        Kind.__init__(self, "bool-ndarray")
         self.src, self.what = src, what
 
 
-class PMasked:
+class PMasked(Kind):
     """numpy.ma.MaskedArray seen at the same generic positions: data entries + mask bits."""
 
     _pyvc_value = True
 
     def __init__(self, elems, mask, base):
+        Kind.__init__(self, "masked-ndarray")
         self.elems = list(elems)
         self.mask = list(mask)
         self.base = base
